@@ -958,4 +958,42 @@ func ruleSetQueued(r *Report) {
 		})
 		h.Check(ok, fnName(fn), r.P.Pos(fn.Pos()), "hands its value to the accessor's Set", "the row setter does not hand its value to the column accessor's Set (or to the buffer): the write is dropped")
 	}
+	// a Row.Set* that writes to the buffer itself (SetMany, SetAny …) queues a Put: where the operation
+	// type of a Buffer.Put* call below a setter is a constant, it is commit.Put
+	putVal, _ := r.P.ConstVal("commit", "Put")
+	var setters []*ssa.Function
+	for fn := range r.P.modFunc {
+		rn := recvNamed(fn)
+		if fn.Parent() != nil || fn.Synthetic != "" || rn == nil || rn.Obj().Name() != "Row" || !strings.HasPrefix(fn.Name(), "Set") {
+			continue
+		}
+		setters = append(setters, fn)
+	}
+	sortFuncs(setters)
+	for _, fn := range setters {
+		var bad ssa.Instruction
+		n := 0
+		deepVisitE(fn, func(ins, _ ssa.Instruction, env *venv) {
+			cc, _, _ := callCommon(ins)
+			if cc == nil || len(cc.Args) < 2 {
+				return
+			}
+			short := calleeNameE(cc, env)
+			if !(isBufferPut(short) || short == "(*commit.Buffer).PutAny") || !isNamed(cc.Args[1].Type(), CommitPath, "OpType") {
+				return
+			}
+			opv, _ := normE(cc.Args[1], env, false)
+			k, isC := opv.(*ssa.Const)
+			if !isC || k.Value == nil {
+				return
+			}
+			n++
+			if k.Value.String() != putVal {
+				bad = ins
+			}
+		})
+		if n > 0 {
+			h.Check(bad == nil, fnName(fn)+"/op", r.P.InstrPos(bad), "queues operation Put", "the row setter queues its value with an operation type other than Put: the column merges (or deletes) instead of storing the value")
+		}
+	}
 }
